@@ -387,7 +387,7 @@ rc::Gen<Case> gen_case()
 void campaign(Ctx& ctx)
 {
 	bool const thorough = ctx.opt.tier == "thorough";
-	ctx.rc_campaign("http server sessions", gen_case(), thorough ? 40000 : 1500, 60, 1);
+	ctx.rc_campaign("http server sessions", gen_case(), thorough ? 40000 : 4000, 60, 1);
 }
 
 std::vector<Case> generate(Ctx& ctx, int n)
